@@ -1,16 +1,16 @@
-(* Hand model of the decision core of mypy/reachability.py:consider_sys_version_info (after the
-   AST has been destructured into an index form and a literal), of the and/or/not table of
-   infer_condition_value, and of consider_sys_platform; plus the run-time meaning of the same
-   tests.  `fixed_comparison` and the truth-value constants are REGENERATED from the source
-   (Gen.Reach).  The dispatch below is tied to the source by exhaustive correspondence. *)
+(* SPECIFICATIONS of the decision cores of mypy/reachability.py (consider_sys_version_info after the AST
+   has been destructured, the and/or/not tables of infer_condition_value, consider_sys_platform) in the
+   form the proofs use, plus the run-time meaning of the same tests.  The functions themselves are
+   REGENERATED from the source into Gen.Reach (consider_core, reverse_op, inverted_truth_mapping,
+   infer_op_table, platform_cmp_core, platform_startswith_core, fixed_comparison, the constants);
+   ProofsGenReach proves the generated functions equal to the definitions below for every input. *)
 From Coq Require Import ZArith List String Bool Lia.
 From C12 Require Import PyRules.
 From Gen Require Import Reach.
 Import ListNotations.
 Open Scope Z_scope.
 
-Inductive vidx := IdxInt (i : Z) | IdxSlice (lo hi : option Z).   (* bare sys.version_info = IdxSlice None None *)
-Inductive thing := ThInt (k : Z) | ThTuple (t : list Z).
+(* vidx / thing: PyRules (shared with the generated Gen.Reach) *)
 
 Definition is_eq_op (op : string) : bool := String.eqb op "==" || String.eqb op "!=".
 Definition known_op (op : string) : bool :=
@@ -57,6 +57,20 @@ Definition runtime_test (vi : list Z) (idx : vidx) (op : string) (th : thing) : 
       if (0 <=? lo) && (0 <=? hi) then py_cmp_op op (tuple_cmp (py_slice vi lo hi) t)
       else None
   | _, _ => None   (* int vs tuple: ordering raises TypeError; out of the modelled forms *)
+  end.
+
+(* the same test written with the operands the other way round:  <literal> <op> sys.version_info[...] *)
+Definition runtime_test_flipped (vi : list Z) (idx : vidx) (op : string) (th : thing) : option bool :=
+  match idx, th with
+  | IdxInt index, ThInt k =>
+      if (0 <=? index) && (index <? Z.of_nat (List.length vi))
+      then py_cmp_op op (Z.compare k (nth (Z.to_nat index) vi 0)) else None
+  | IdxSlice lo hi, ThTuple t =>
+      let lo := opt_default lo 0 in
+      let hi := opt_default hi (Z.of_nat (List.length vi)) in
+      if (0 <=? lo) && (0 <=? hi) then py_cmp_op op (tuple_cmp t (py_slice vi lo hi))
+      else None
+  | _, _ => None
   end.
 
 Definition truth_bool (v : Z) : option bool :=
